@@ -91,7 +91,7 @@ def describe(p, tab=None):
         elif k == 'startasync': ops.append('Run / RunHandlers returns; the goroutines of %s are held before their copy of r.middlewares' % o.get('names'))
         elif k == 'snap': ops.append('handler %r copies r.middlewares now' % o.get('name', ''))
         elif k == 'stop': ops.append('Handler(%r).Stop()%s' % (o.get('name', ''), ' — the following [in window] ops run as soon as the name is free, before Stopped() closes' if o.get('early') else ', wait for Stopped()'))
-        else: ops.append('%s(%d)%s' % (k, o['id'], ' constructor fails %d time(s)' % o['fails'] if o.get('fails') else ''))
+        else: ops.append('%s(%d)%s%s' % (k, o['id'], ' [the library MessageTransform decorator]' if o.get('lib') else '', ' constructor fails %d time(s)' % o['fails'] if o.get('fails') else ''))
     return dict(kind=p['kind'], subscriber_types=p['subty'], publisher_types=p['pubty'], program=ops,
                 observed=[[dict(handler=c['owner'], trace=c['trace']) for c in ob] for ob in p['obs']], anomalies=p['anomaly'],
                 interned={v: k for k, v in p['nameids'].items()})
@@ -106,6 +106,11 @@ def stats(res, p):
     res.count('pub_decorators=%d' % min(5, sum(1 for o in p['ops'] if o['k'] == 'addpubdec')))
     res.count('sub_decorators=%d' % min(5, sum(1 for o in p['ops'] if o['k'] == 'addsubdec')))
     if any(o.get('dup') for o in p['ops']): res.count('duplicate_handler_name_attempts')
+    if any(o.get('lib') for o in p['ops']): res.count('programs_registering_the_library_MessageTransform_decorators')
+    subs_pre = [i for i, t in enumerate(p['subty']) if t == 'message.messageTransformSubscriberDecorator']
+    if subs_pre: res.count('programs_with_application_pre-decorated_subscribers')
+    if any(sum(1 for h in hs if h['sub'] == i) > 1 for i in subs_pre): res.count('programs_with_a_pre-decorated_subscriber_shared_by_handlers')
+    if 'message.messageTransformPublisherDecorator' in p['pubty']: res.count('programs_with_application_pre-decorated_publishers')
     if p.get('snaps'): res.count('programs_registering_between_RunHandlers_return_and_the_copy_of_r.middlewares'); res.count('handler_goroutines_really_held_before_their_copy', p['snaps'])
     nstop = sum(1 for o in p['ops'] if o['k'] == 'stop')
     if nstop: res.count('programs_with_Handler.Stop'); res.count('handler_stops', nstop)
@@ -155,9 +160,27 @@ def shape(p):
         elif k == 'stop': s.append(('Z' if o.get('early') else 'z') + o.get('name', ''))
     return tuple(s)
 
+def fold_pubdec(tr):
+    """the library's MessageTransformPublisherDecorator calls its transform once per message: consecutive marks of one
+    decorator are the batch it saw"""
+    out = []
+    for e in tr:
+        if e[0] == 'pubdecmsg':
+            if out and out[-1][0] == 'pubdec' and out[-1][1] == e[1] and out[-1][4:] == ['lib']:
+                out[-1][3].append(e[3])
+            else:
+                out.append(['pubdec', e[1], e[2], [e[3]], 'lib'])
+        else:
+            out.append(e)
+    return [e[:4] if e[0] == 'pubdec' else e for e in out]
+
 def run_harness(ctx, args, tag):
     binary = C.build_harness()
     data, _ = C.run_harness(binary, ['c0809', '-seed', str(ctx['seed'])] + args, ctx['pid'], 'c0809_%s.json' % tag)
+    for p in data['programs']:
+        for ob in p['obs']:
+            for c in ob:
+                c['trace'] = fold_pubdec(c['trace'])
     return data['programs']
 
 def evaluate(ctx, res, progs, vio_name, tag, sig_prefix, what):
